@@ -92,13 +92,17 @@ def run(module, cfg_text, workers=16, timeout=1800, env=None, extra_args=(), out
             fh.write(cfg_text)
         cmd = ['java', '-XX:+UseParallelGC', '-Xmx24g', '-Xss64m'] + list(java_opts or []) + \
               ['-cp', JAR + ':/opt/veriftools/tla/CommunityModules-deps.jar', 'tlc2.TLC']
-        cmd = ['tlc']            # the installed wrapper already has CommunityModules on the classpath
+        # (the installed `tlc` wrapper runs the same class path; java is called directly for the stack size: the wire modules
+        #  use recursive operators over sequences of a few hundred elements - 255-AS segments, 100-operator flowspec rules)
+        cmd = ['java', '-XX:+UseParallelGC', '-Xss1g', '-cp', JAR + ':/opt/veriftools/tla/CommunityModules-deps.jar', 'tlc2.TLC']
         cmd += ['-workers', str(workers), '-metadir', os.path.join(work, 'meta'), '-noGenerateSpecTE',
                 '-config', 'run.cfg'] + list(extra_args)
         if simulate:
             cmd += ['-simulate', simulate]
         cmd += [module + '.tla']
         e = dict(os.environ)
+        # the wire modules use recursive operators over sequences of a few hundred elements (255-AS segments, 80-operator
+        # flowspec rules): give the JVM threads a deep stack
         if java_opts:
             e['JAVA_TOOL_OPTIONS'] = ' '.join(java_opts)
         e.update(env or {})
